@@ -477,6 +477,12 @@ class Analyzer:
             for a, b in zip(tgt.elts, value.elts):
                 st = self.assign(ast.Assign(targets=[a], value=b, lineno=x.lineno, col_offset=x.col_offset), st)
             return st
+        if isinstance(tgt, ast.Name) and isinstance(value, ast.IfExp):
+            # x = A if c else B  ==  if c: x = A else: x = B
+            T, F = self.refine(value.test, st)
+            a = self.assign(ast.copy_location(ast.Assign(targets=[tgt], value=value.body, lineno=x.lineno, col_offset=x.col_offset), x), T) if T is not None else None
+            b = self.assign(ast.copy_location(ast.Assign(targets=[tgt], value=value.orelse, lineno=x.lineno, col_offset=x.col_offset), x), F) if F is not None else None
+            return self.join(a, b)
         if isinstance(tgt, ast.Name):
             name = tgt.id
             old = st.get(name)
@@ -654,7 +660,7 @@ class Analyzer:
         verdict = None
         best_detail = []
         for cname in cursors:
-            bounded = _test_bounds_cursor(x.test, cname)
+            bounded = _test_bounds_cursor(x.test, cname) or _body_bounds_cursor(x.body, cname)
             ok = True
             detail = []
             for b, b0 in zip(backs, backs0):
@@ -885,6 +891,27 @@ def _peek_summary(fn):
         else:
             ok = False
     return {"NLT": ok, "mayNull": may_null, "mayNonNull": True, "kmin": 0}
+
+
+def _body_bounds_cursor(body, cname):
+    """`while True:` spelling of a bounded loop: before the cursor is changed, the body leaves the loop unless cname < len(t)
+    (`if cname >= len(t): break`, `if not cname < len(t): break`, possibly after other exits)"""
+    for st in body:
+        if isinstance(st, ast.If) and not st.orelse and st.body and isinstance(st.body[-1], (ast.Break, ast.Return, ast.Raise)):
+            t, pol = st.test, True
+            while isinstance(t, ast.UnaryOp) and isinstance(t.op, ast.Not):
+                t, pol = t.operand, not pol
+            if isinstance(t, ast.Compare) and len(t.ops) == 1 and src(t.left) == cname and src(t.comparators[0]) == "len(t)":
+                if (pol and isinstance(t.ops[0], ast.GtE)) or (not pol and isinstance(t.ops[0], ast.Lt)):
+                    return True
+            continue            # another early exit that does not touch the cursor
+        if isinstance(st, ast.Pass):
+            continue
+        if isinstance(st, ast.Assign) and not any(isinstance(n, ast.Name) and n.id == cname and isinstance(n.ctx, ast.Store) for n in ast.walk(st)) and \
+                not any(isinstance(c, ast.Call) for c in ast.walk(st.value) if not (isinstance(c, ast.Call) and callee_name(c) in ("cmatch", "cmatch2", "len", "cpeek", "cpeek2"))):
+            continue            # a local computed from pure look-ahead
+        return False
+    return False
 
 
 def _test_bounds_cursor(test, cname):
